@@ -150,7 +150,7 @@ def parse(it, d, reader, ctxobj=None, node=None):
         return c
     if k == 'Array':
         count, sub = d.args
-        if isinstance(count, (FuncVal, BoundMethod)):
+        if isinstance(count, (FuncVal, BoundMethod, Builtin)):
             count = it.call(count, [ctxobj], {})
         ct = zi(count)
         it.raise_if(ct < 0, 'RangeError', 'array-count', node)
